@@ -169,6 +169,16 @@ fn cases(tier: Tier) -> Vec<FileCase> {
                             db.summary.format_version = 1;
                             db.summary.extra_i1 = Some((10, -7));
                         }
+                        // an empty string stored with size 0 (no terminator)
+                        if so == 48 && pad == 0 {
+                            db.summary.subject = Some(String::new());
+                            db.summary.empty_as_size_zero = true;
+                        }
+                        // the first and the last representable creation time
+                        // are times like any other
+                        if so == 64 {
+                            db.summary.creation_ticks_1601 = Some(if pad == 4 { u64::MAX >> 1 } else { 0 });
+                        }
                         out.push(FileCase { label: format!("cp{}/pool-{}/props-{:?}/pad{}/off{}", cp, pname, order, pad, so), group: "text", db });
                     }
                 }
